@@ -213,6 +213,22 @@ func scaleObjects() []*rj.Value {
 		c.O = c.O[:n]
 		out = append(out, c)
 	}
+	// widths around powers of two (pre-sizing, small-map fast paths, byte-wide counters) and three narrow partners
+	for _, n := range []int{8, 9, 16, 17, 32, 33, 64, 65, 128, 129, 256, 257} {
+		o := rj.NewObj()
+		for i := 0; i < n; i++ {
+			v := rj.MustParse(fmt.Sprint(i))
+			switch i {
+			case 1:
+				v = rj.MustParse(`{"x":1}`)
+			case 2:
+				v = rj.MustParse(`null`)
+			}
+			o.O = append(o.O, rj.Member{Name: fmt.Sprintf("m%03d", i), V: v})
+		}
+		out = append(out, o)
+	}
+	out = append(out, parseAll([]string{`{}`, `{"m000":9}`, `{"a":1,"b":{"c":2},"m001":{"y":2},"z":null}`})...)
 	for i := range out {
 		// CreateMergePatch needs a target without null members for the round trip: keep both kinds
 		c := rj.Clone(out[i])
@@ -226,4 +242,19 @@ func scaleObjects() []*rj.Value {
 		out = append(out, c)
 	}
 	return dedupe(out)
+}
+
+// neighbourObjects: numbers that differ by one unit in the last place of a float64 (and are exactly
+// representable), as member values, nested and inside arrays - a comparison with a tolerance or through a
+// narrower type calls them equal.
+func neighbourObjects() []*rj.Value {
+	pairs := [][2]string{{"9007199254740990", "9007199254740991"}, {"4503599627370497", "4503599627370498"}, {"0.1", "0.10000000000000002"},
+		{"1e+308", "1.0000000000000002e+308"}, {"16777216", "16777217"}, {"-2147483648", "-2147483649"}, {"5e-324", "1e-323"}}
+	var out []*rj.Value
+	for _, p := range pairs {
+		for _, x := range p {
+			out = append(out, parseAll([]string{`{"n":` + x + `}`, `{"o":{"n":` + x + `,"k":1}}`, `{"a":[` + x + `]}`, `{"a":[1,{"n":` + x + `}]}`})...)
+		}
+	}
+	return out
 }
